@@ -1,0 +1,29 @@
+// Copyright 2026 The Go Authors. All rights reserved.
+// Use of this source code is governed by a BSD-style
+// license that can be found in the LICENSE file.
+
+//go:build verif
+
+package filedesc
+
+import "sync/atomic"
+
+// VerifFileInitSink, when installed, is called from File.lazyInitOnce:
+// stage 0 before taking the lock, 1 under the lock when this call performs
+// the initialization, 2 just before the done flag is published.
+var verifFileInitSink atomic.Pointer[func(stage int, fd *File)]
+
+// SetVerifFileInitSink installs (or with nil removes) the sink.
+func SetVerifFileInitSink(f func(stage int, fd *File)) {
+	if f == nil {
+		verifFileInitSink.Store(nil)
+		return
+	}
+	verifFileInitSink.Store(&f)
+}
+
+func verifFileInit(stage int, fd *File) {
+	if f := verifFileInitSink.Load(); f != nil {
+		(*f)(stage, fd)
+	}
+}
